@@ -177,18 +177,16 @@ def runVSteps {w : Nat} (t : Tree w Val) : List (VStep w) → View w → Nat →
     | none => .error (i, v)
     | some v' => runVSteps t ss v' (i + 1)
 
+/-- the keys under `a` that are also under `b`: under the longer of the two if they are comparable -/
+def meetKey (a b : Spec.Key) : Option Spec.Key :=
+  if a.isPrefixOf b then some b else if b.isPrefixOf a then some a else none
+
 /-- specification side of view navigation: a view is the *region* of keys it addresses
 (`none` = provably empty region).  `pfxs` are the prefixes the model reports for the views reached
 after each step (the region of a `left`/`right` step is relative to the reported prefix). -/
 def specRegionStep {w : Nat} (s : Spec.SMap w Val) (reg : Option Spec.Key) (cur : Option (Pfx w)) :
     VStep w → Option Spec.Key
-  | .at q | .find q =>
-    match reg with
-    | none => none
-    | some k =>
-      if k.isPrefixOf (Spec.key q) then some (Spec.key q)
-      else if (Spec.key q).isPrefixOf k then some k
-      else none
+  | .at q | .find q => reg.bind (fun k => meetKey k (Spec.key q))
   | .exact q =>
     match reg with
     | none => none
@@ -197,8 +195,8 @@ def specRegionStep {w : Nat} (s : Spec.SMap w Val) (reg : Option Spec.Key) (cur 
     match reg with
     | none => none
     | some k => (Spec.lpm (Spec.under s k) q).map (fun e => Spec.key e.1)
-  | .left => cur.map (fun p => Spec.key p ++ [false])
-  | .right => cur.map (fun p => Spec.key p ++ [true])
+  | .left => reg.bind (fun k => cur.bind (fun p => meetKey k (Spec.key p ++ [false])))
+  | .right => reg.bind (fun k => cur.bind (fun p => meetKey k (Spec.key p ++ [true])))
 
 def regionEntries {w : Nat} (s : Spec.SMap w Val) : Option Spec.Key → Spec.SMap w Val
   | none => []
@@ -355,12 +353,12 @@ def viewAction {w : Nat} (st : St w) (r : String) (m : PMap w Val) (s : Spec.SMa
   | ["value"] =>
     (st, "ok;" ++ fmtOpt toString (v.value m.root),
          "ok;" ++ fmtOpt toString (match v.pfx m.root with
-            | some p => (Spec.lookup s p).map (·.2)
+            | some p => (Spec.lookup (regionEntries s reg) p).map (·.2)
             | none => none))
   | ["pv"] =>
     (st, "ok;" ++ fmtOpt fmtPV (v.prefixValue m.root),
          "ok;" ++ fmtOpt fmtPV (match v.pfx m.root with
-            | some p => Spec.lookup s p
+            | some p => Spec.lookup (regionEntries s reg) p
             | none => none))
   | ["iter"] => (st, "ok;" ++ fmtList fmtPV (v.iter m.root), "ok;" ++ fmtList fmtPV (regionEntries s reg))
   | ["keys"] => (st, "ok;" ++ fmtList (fun e => fmtP e.1) (v.iter m.root), "ok;" ++ fmtList (fun e => fmtP e.1) (regionEntries s reg))
@@ -370,6 +368,7 @@ def viewAction {w : Nat} (st : St w) (r : String) (m : PMap w Val) (s : Spec.SMa
     (st, "ok;" ++ fmtBool (v.left m.root).isSome ++ "," ++ fmtBool (v.right m.root).isSome, "ok;*")
   | ["iter_mut", d] | ["values_mut", d] | ["into_iter", d] => match d.toInt? with
     | some d =>
+      let d : Val := if r == "S" then 0 else d
       let items := Tree.iterAllS [v.node m.root]
       let m' := { m with root := bumpSlots m.root (items.map (·.1)) d }
       let ents := regionEntries s reg
@@ -378,21 +377,23 @@ def viewAction {w : Nat} (st : St w) (r : String) (m : PMap w Val) (s : Spec.SMa
     | none => bad st
   | ["value_mut", x] | ["pv_mut", x] => match x.toInt? with
     | some x =>
+      let x : Val := if r == "S" then 0 else x
       let old := v.value m.root
       let m' := match v.virt with
         | some _ => m
         | none => { m with root := m.root.modifyAt v.path (fun t => match t.value? with | some _ => t.withValue (some x) | none => t) }
-      let sp := match v.pfx m.root with | some p => Spec.lookup s p | none => none
+      let sp := match v.pfx m.root with | some p => Spec.lookup (regionEntries s reg) p | none => none
       (st.set r m' (match sp with | some e => Spec.modify s e.1 (fun _ => x) | none => s),
         "ok;" ++ fmtOpt toString old, "ok;" ++ fmtOpt toString (sp.map (·.2)))
     | none => bad st
   | ["remove"] =>
-    let sp := match v.pfx m.root with | some p => Spec.lookup s p | none => none
+    let sp := match v.pfx m.root with | some p => Spec.lookup (regionEntries s reg) p | none => none
     (st.set r (m.viewRemove v).1 (match sp with | some e => Spec.erase s e.1 | none => s),
       "ok;" ++ fmtOpt toString (m.viewRemove v).2, "ok;" ++ fmtOpt toString (sp.map (·.2)))
   | ["set", x] => match x.toInt? with
     | some x =>
-      let sp := match v.pfx m.root with | some p => Spec.lookup s p | none => none
+      let x : Val := if r == "S" then 0 else x
+      let sp := match v.pfx m.root with | some p => Spec.lookup (regionEntries s reg) p | none => none
       match (m.viewSet v x).2 with
       | none => (st, "ok;err", "ok;err")   -- virtual view: `Err(value)`, nothing changes
       | some old =>
@@ -480,8 +481,11 @@ def setOp {w : Nat} (st : St w) (kindTok : String) (toks : List String) : Res w 
           if ra == rb then (st, "ok;" ++ ms, "ok;" ++ ss)   -- two views of one map: read-only kinds only
           else
             let (kl, kr) := specWrites kind xa xb
-            let st1 := st.set ra { ma with root := bumpSlots ma.root wl d } (bumpKeys ea kl d)
-            let st2 := st1.set rb { mb with root := bumpSlots mb.root wr d } (bumpKeys eb kr d)
+            -- a set's values are `()`: writes through its `&mut ()` change nothing
+            let da : Val := if ra == "S" then 0 else d
+            let db : Val := if rb == "S" then 0 else d
+            let st1 := st.set ra { ma with root := bumpSlots ma.root wl da } (bumpKeys ea kl da)
+            let st2 := st1.set rb { mb with root := bumpSlots mb.root wr db } (bumpKeys eb kr db)
             (st2, "ok;" ++ ms, "ok;" ++ ss)
         | _, _ => bad st
       | .error (mm, sm), _ => (st, "A:" ++ mm, "A:" ++ sm)
@@ -509,6 +513,7 @@ def setOpSplit {w : Nat} (st : St w) (kindTok : String) (toks : List String) : R
           match modelSetop kind (vl.node m.root) (vr.node m.root), specSetop kind xa xb with
           | some (ms, wl, wr), some ss =>
             let (kl, kr) := specWrites kind xa xb
+            let d : Val := if r == "S" then 0 else d
             (st.set r { m with root := bumpSlots m.root (wl ++ wr) d } (bumpKeys e (kl ++ kr) d),
               "ok;" ++ ms, "ok;" ++ ss)
           | _, _ => bad st
@@ -690,6 +695,13 @@ def step {w : Nat} (st : St w) (line : String) : Res w :=
             fmtList fmtPV (items.map (·.2)), fmtList fmtPV ents)
         | _, _ => bad st
       | "shape", [] => (st, shapeStr m.root, "*")
+      | "shape_fresh", [] =>
+        -- for tries modified only by insert / remove / retain / clear: the shape equals that of a
+        -- map freshly built from the surviving keys (in ascending and in descending order)
+        let fwd : PMap w Val := PMap.collect m.iter
+        let bwd : PMap w Val := PMap.collect m.iter.reverse
+        (st, (if shapeStr fwd.root == shapeStr m.root && shapeStr bwd.root == shapeStr m.root then "same" else "differ"), "same")
+      | "serde", [] => (st, "true", "true")
       | "snap", [] => (st, snapStr m, snapSpec s)
       | _, _ => bad st
   | _ => bad st
